@@ -6,10 +6,13 @@ MC   : module Channel explored exhaustively by TLC (ChannelMC: every interleavin
 Bind : (a) WITNESS validation - N real LStates in goroutines run generated channel scripts,
        each logs call/return of every channel operation in its own log; ChannelTrace.tla
        must find an interleaving of the per-process logs that Channel allows (TLC decides);
-       (b) N states made from ONE shared FunctionProto run corpus programs at the same time
-       while other goroutines create/compile/run/close states; every per-state trace must be
-       the trace of the same prototype run alone, every distinct trace is validated by
-       LuaSemTrace (TLC), and a deep snapshot of the prototype must not change;
+       (b) N states made from ONE shared FunctionProto run programs at the same time (corpus
+       programs, library programs, programs that resolve function names at anonymous call sites
+       and after tail calls) while other goroutines create/compile/run/close states; every
+       per-state trace must be the trace of the same program run alone on a private compilation,
+       every distinct corpus trace is validated by LuaSemTrace (TLC), and the prototype tree is
+       observed after compilation and after every run/schedule: SharedProtoTrace.tla (TLC) decides
+       the invariant Immutable of SharedProto.tla on the observations;
        (c) the harness is built with -race: a race report on interpreter memory is a violation.
 """
 import json, os, random, re, time
@@ -67,6 +70,80 @@ for i = 1, 20 do acc = acc + co() end
 emit(acc, select(2, pcall(thrower, 3)))''',
     r'''local parts = {} for i = 1, 50 do parts[#parts+1] = os.date("!%Y-%m-%d %H:%M:%S", i * 86400 * 37) end
 emit(parts[1], parts[50], string.len(table.concat(parts)), os.time({year = 2001, month = 2, day = 3, hour = 4}) ~= nil)''',
+]
+
+
+# programs that make the interpreter RESOLVE FUNCTION NAMES (tracebacks, debug.getinfo 'n', error
+# positions) for callees reached through call sites without a static name (t[i](), (f or g)(),
+# handlers[k]()) and after tail calls.  The global c13_which (set by the harness, differs between the
+# states sharing one prototype) selects which callee a site reaches first, so a name cached anywhere
+# but in the running state shows up as another state's (or an earlier call's) function.
+DBGNAMES = [
+    r'''local function a() error("boom") end
+local function b() error("boom") end
+local handlers = { a, b }
+local function dispatch(i)
+  local r = handlers[i]()
+  return r
+end
+local w = c13_which % 2 + 1
+local ok, tb = xpcall(function() dispatch(w) end, debug.traceback)
+emit(tb)
+local ok2, tb2 = xpcall(function() dispatch(3 - w) end, debug.traceback)
+emit(tb2)''',
+    r'''local function f()
+  local i = debug.getinfo(1, "nS") return tostring(i.name) .. "@" .. tostring(i.linedefined)
+end
+local function g()
+  local i = debug.getinfo(1, "nS") return tostring(i.name) .. "@" .. tostring(i.linedefined)
+end
+local t = { f, g }
+local w = c13_which % 2 + 1
+local function site(i) local r = t[i]() return r end
+local out = {}
+for r = 1, 6 do out[#out + 1] = site((w + r) % 2 + 1) end
+emit(table.concat(out, " "), ((w == 1 and f) or g)(), ((w == 2 and f) or g)(), f(), g())''',
+    r'''local function leaf1() return (debug.traceback("one", 1)) end
+local function leaf2() return (debug.traceback("two", 1)) end
+local function via1() return leaf1() end
+local function via2() return leaf2() end
+local fs = { via1, via2, leaf1, leaf2 }
+local function call(i) local r = fs[i]() return r end
+local w = c13_which % 2
+emit(call(1 + w)) emit(call(2 - w)) emit(call(3 + w)) emit(call(4 - w))''',
+    r'''local w = c13_which % 2 + 1
+local function e1() local x = nil return x.field end
+local function e2() local y = nil return y() end
+local es = { e1, e2 }
+local res = {}
+for r = 1, 4 do
+  local k = (w + r) % 2 + 1
+  local ok, tb = xpcall(function() local v = es[k]() return v end, function(m) return debug.traceback(tostring(m), 1) end)
+  res[#res + 1] = tb
+end
+emit(unpack(res))''',
+    r'''local w = c13_which % 2 + 1
+local obj = {}
+function obj.first() return debug.getinfo(1, "n").name, debug.traceback("m", 1) end
+function obj.second() return debug.getinfo(1, "n").name, debug.traceback("m", 1) end
+local names = { "first", "second" }
+local function go(k) local a, b = obj[names[k]]() return tostring(a) .. "\n" .. b end
+emit(go(w)) emit(go(3 - w))
+local function tail(k) return obj[names[k]]() end
+emit((tail(w))) emit((tail(3 - w)))
+emit(select(2, pcall(function() local fns = { string.rep, string.sub } local r = fns[w]() return r end)))''',
+    r'''local w = c13_which % 2 + 1
+local function mk(tag) return function(depth)
+    if depth == 0 then error(tag .. " failed", 2) end
+    return (select(1, 1)) and nil
+  end end
+local fa, fb = mk("A"), mk("B")
+local pick = { fa, fb }
+local function level(k) local r = pick[k](0) return r end
+local r1 = { xpcall(function() level(w) end, debug.traceback) }
+local r2 = { xpcall(function() level(3 - w) end, debug.traceback) }
+local co = coroutine.wrap(function(k) local ok, tb = xpcall(function() local r = pick[k](0) return r end, debug.traceback) coroutine.yield(tb) end)
+emit(r1[2]) emit(r2[2]) emit(co(w))''',
 ]
 
 
@@ -285,18 +362,6 @@ PROTO_FIELDS = ["path", "SourceName", "LineDefined", "LastLineDefined", "NumUpva
                 "DbgCalls", "DbgUpvalues", "stringConstants", "cap(Code)", "cap(Constants)"]
 
 
-def proto_field(diff):
-    try:
-        b, a = diff[len("before "):].split(" after ", 1)
-        b, a = json.loads(b), json.loads(a)
-        for i, (x, y) in enumerate(zip(b, a)):
-            if x != y:
-                return PROTO_FIELDS[i]
-    except Exception:
-        pass
-    return "shape"
-
-
 def build_corpus(tier, seed):
     n = 2400 if tier == "thorough" else 180
     progs = []
@@ -306,6 +371,9 @@ def build_corpus(tier, seed):
     for j, src in enumerate(LIBMIX):
         for rep in range(3 if tier == "thorough" else 1):
             progs.append({"id": 100001 + j * 10 + rep, "fam": "libmix", "src": src})
+    for j, src in enumerate(DBGNAMES):
+        for rep in range(6 if tier == "thorough" else 2):
+            progs.append({"id": 200001 + j * 10 + rep, "fam": "dbgnames", "src": src})
     return progs
 
 
@@ -346,24 +414,50 @@ def decide_shared(groups, n, group, churn, verd, stats, counts, samples, distinc
         for p in part:
             gof[p["id"]] = gomaxprocs
         vlib.log("[C13]   %d programs x %d states from one shared prototype each, GOMAXPROCS=%d (%.1fs)" % (len(part), n, gomaxprocs, time.time() - t1))
-    # every distinct trace of a corpus program goes to TLC (LuaSemTrace); identical ones are folded
-    vprogs, vouts, owner = [], {}, {}
-    suspects = []
+    # (a) the shared prototype tree must be the same tree at every observation: SharedProtoTrace (TLC)
+    t1 = time.time()
+    precs = []
     for p in progs:
         o = outs[p["id"]]
         if o.get("compile_err"):
             raise vlib.Infra("program %d does not compile: %s" % (p["id"], o["compile_err"]))
+        precs.append({"id": p["id"], "obs": o["obs"]})
+    pby = {p["id"]: p for p in progs}
+    nobs = 0
+    for r in vlib.validate_batches("SharedProtoTrace", "SharedProtoTrace", precs, "c13_proto", batch=1500, parallel=4, timeout=900):
+        stats["states"] += r.distinct
+        stats["transitions"] += r.generated
+        vs = r.tag("VERDICT")
+        if len(vs) != r.nrecords:
+            raise vlib.Infra("SharedProtoTrace: %d verdicts for %d records" % (len(vs), r.nrecords))
+        for v in vs:
+            nobs += v["n"]
+            if v["ok"]:
+                continue
+            p, o = pby[v["id"]], outs[v["id"]]
+            j = v["at"][1]
+            field = PROTO_FIELDS[j - 1] if 1 <= j <= len(PROTO_FIELDS) else "shape"
+            verd.candidate("C13:shared-proto:prototype-modified:" + field,
+                           "a FunctionProto shared between states changed while being executed (observation '%s', prototype #%d of the chunk, field %s): %s"
+                           % (o["obs_names"][v["k"] - 1], v["at"][0], field, o.get("proto_diff", "")[:500]),
+                           {"kind": "shared", "program": p, "result": o, "verdict": v, "gomaxprocs": gof[p["id"]]})
+    counts["proto_observations_validated"] = counts.get("proto_observations_validated", 0) + nobs
+    vlib.log("[C13]   SharedProtoTrace (TLC) on %d observations of %d shared prototype trees (%.1fs)" % (nobs, len(precs), time.time() - t1))
+    # (b) every distinct trace of a corpus program goes to TLC (LuaSemTrace); identical ones are folded
+    vprogs, vouts, owner = [], {}, {}
+    suspects = []
+    for p in progs:
+        o = outs[p["id"]]
         counts["states_run_from_shared_proto"] = counts.get("states_run_from_shared_proto", 0) + o["nstates"]
         counts["prototypes_snapshotted"] = counts.get("prototypes_snapshotted", 0) + o["proto_size"]
-        if not o["proto_same"]:
-            verd.candidate("C13:shared-proto:prototype-modified:" + proto_field(o.get("proto_diff", "")),
-                           "running %d states from one shared FunctionProto changed the prototype: %s" % (n, o.get("proto_diff", "")[:400]),
-                           {"kind": "shared", "program": p, "result": o, "gomaxprocs": gof[p["id"]]})
-        variants = [v["trace"] for v in o["conc"] if v["trace"] != o["seq"]]
+        seqs = o["seqs"]
+        variants = [(v["w"], v["trace"]) for v in o["conc"] if v["trace"] != seqs[v["w"]]]
+        if p["fam"] == "corpus" and any(t != seqs[0] for t in seqs[1:]):
+            raise vlib.Infra("corpus program %d depends on c13_which" % p["id"])
         if variants:
             suspects.append((p, o, variants))
         if p["fam"] == "corpus":
-            for j, t in enumerate([o["seq"]] + variants):
+            for j, t in enumerate([seqs[0]] + [t for _, t in variants]):
                 vid = p["id"] * 100 + j
                 vprogs.append(dict(p, id=vid))
                 vouts[vid] = {"emits": t["emits"], "outcome": t["outcome"]}
@@ -380,15 +474,17 @@ def decide_shared(groups, n, group, churn, verd, stats, counts, samples, distinc
             counts["lsem"][verdicts[vid]["v"]] = counts["lsem"].get(verdicts[vid]["v"], 0) + 1
     for p in progs:
         o = outs[p["id"]]
-        same = sum(v["n"] for v in o["conc"] if v["trace"] == o["seq"])
+        same = sum(v["n"] for v in o["conc"] if v["trace"] == o["seqs"][v["w"]])
+        counts.setdefault("programs_by_family", {})
+        counts["programs_by_family"][p["fam"]] = counts["programs_by_family"].get(p["fam"], 0) + 1
         if p["fam"] == "corpus" and seqv[p["id"]]["v"] == "bad":
             # the program diverges from LuaSem even when run alone: C01's business, not interference
             counts["excluded_c01_divergent"] = counts.get("excluded_c01_divergent", 0) + 1
             continue
         nvalid += same
-        if same and len(o["seq"]["emits"]) >= 2:
+        if same and len(o["seqs"][0]["emits"]) >= 2:
             distinct.add(vlib.canon_hash(p["src"]))
-    # a state that computed something else than the state running alone
+    # a state on the shared prototype computed something else than the state running alone
     for p, o, variants in suspects:
         hit = None
         for attempt in range(4):
@@ -396,26 +492,40 @@ def decide_shared(groups, n, group, churn, verd, stats, counts, samples, distinc
             if o2 is None:
                 break
             r = o2[p["id"]]
-            if any(v["trace"] != r["seq"] for v in r["conc"]) or r["seq"] != o["seq"]:
+            if any(v["trace"] != r["seqs"][v["w"]] for v in r["conc"]) or r["seqs"] != o["seqs"]:
                 hit = r
                 break
         if hit is None:
-            raise vlib.Infra("program %d: a concurrent state produced a different trace than the state alone, but 4 re-runs with 16 states did not reproduce it; first observation: %s"
-                             % (p["id"], json.dumps(variants[0])[:600]))
+            raise vlib.Infra("program %d: a state on the shared prototype produced a different trace than the state alone, but 4 re-runs with 16 states did not reproduce it; first observation: %s"
+                             % (p["id"], json.dumps(variants[0][1])[:600]))
         tv = verdicts.get(p["id"] * 100 + 1)
+        w0, t0 = variants[0]
         note = ("LuaSemTrace on the deviating trace: %s at event %s, expected %s, got %s"
                 % (tv.get("v"), tv.get("at"), lsem.tok_str(tv.get("exp")), lsem.tok_str(tv.get("got")))) if tv else \
-               ("library program, oracle = the run alone; alone: %s, concurrent: %s"
-                % (json.dumps(o["seq"])[:200], json.dumps(variants[0])[:200]))
+               ("oracle = the same program run alone on a private compilation with c13_which=%d; alone: %s, on the shared prototype: %s"
+                % (w0, show_trace(o["seqs"][w0]), show_trace(t0)))
         verd.candidate("C13:shared-proto:trace-differs:" + p["fam"],
-                       "a state made from a shared prototype computed something else than the same prototype run alone (%s)" % note,
+                       "a state made from a shared prototype computed something else than the same program run alone (%s)" % note,
                        {"kind": "shared", "program": p, "result": o, "rerun": hit, "gomaxprocs": gof[p["id"]]})
     for p in progs[len(progs) // 3:len(progs) // 3 + 2]:
         o = outs[p["id"]]
         samples.append({"kind": "shared-proto", "family": p["fam"], "src": p["src"][:400], "states": o["nstates"],
-                        "identical_traces": sum(v["n"] for v in o["conc"] if v["trace"] == o["seq"]),
-                        "seq_outcome": o["seq"]["outcome"][:2], "proto_same": o["proto_same"], "gomaxprocs": gof[p["id"]]})
+                        "identical_traces": sum(v["n"] for v in o["conc"] if v["trace"] == o["seqs"][v["w"]]),
+                        "seq_outcome": o["seqs"][0]["outcome"][:2], "proto_unchanged": not o.get("proto_diff"), "gomaxprocs": gof[p["id"]]})
     return nvalid
+
+
+def show_trace(t, limit=700):
+    """emit events of a trace with byte strings decoded (for messages)"""
+    def one(x):
+        if isinstance(x, list) and x and x[0] == "s":
+            return bytes(x[1]).decode("latin-1")
+        return json.dumps(x)
+    try:
+        txt = " | ".join(", ".join(one(v) for v in e) for e in t["emits"]) + " => " + json.dumps(t["outcome"][:1])
+    except Exception:
+        txt = json.dumps(t)
+    return txt[:limit]
 
 
 # ---- MC -------------------------------------------------------------------------------
@@ -455,9 +565,10 @@ def run(tier):
     seed = vlib.seed()
     vlib.build_harness(race=True)
     vlib.specdir()          # create the scratch copy of specs/ before any thread uses it
-    pool = ThreadPoolExecutor(max_workers=3)
+    pool = ThreadPoolExecutor(max_workers=4)
     lanes = [pool.submit(mc_lane, cfgs) for cfgs in (MC_THOROUGH if thorough else MC_QUICK)]
     reach = pool.submit(mc_reach)
+    protomc = pool.submit(lambda: vlib.run_tlc("SharedProto", "SharedProto", workers=2, timeout=300))
     # (a) channel runs: the real scheduler is sampled at GOMAXPROCS 1 / 4 / 16
     nscen = 2400 if thorough else 260
     nbig = 300 if thorough else 20
@@ -501,6 +612,10 @@ def run(tier):
     stats["states"] += r.distinct
     stats["transitions"] += r.generated
     vlib.log("[C13] MC vacuity: all 12 kinds of channel events reachable")
+    r = protomc.result()
+    stats["states"] += r.distinct
+    stats["transitions"] += r.generated
+    vlib.log("[C13] MC SharedProto: %d generated / %d distinct states, Immutable and OwnName hold" % (r.generated, r.distinct))
     pool.shutdown()
     rc = verd.finish()
     vlib.write_evidence(PROP, tier, "model_checking", {
@@ -518,6 +633,8 @@ def run(tier):
         "the Go scheduler is sampled (GOMAXPROCS 1/4/16, injected Gosched/sleeps), not enumerated; the schedule quantifier is discharged exhaustively only on the design (ChannelMC: <=3 processes, <=2 channels, <=3 operations each)",
         "the Go race detector (-race build of harness and gopher-lua) is a trusted oracle outside TLA+; races between two Lua scripts on the channel object itself (close concurrent with send, reported by the runtime's channel annotations) are counted, not judged",
         "a pending operation (call logged, return not) may or may not have taken effect; whether a pending rendezvous partner is parked is unobservable, so a select may take its default next to a pending partner",
+        "prototype immutability is observed on fingerprints (sha1, 48 bits per field) of every exported field of every prototype of the chunk plus the string-constant table, taken after compilation, after the run alone and after the concurrent runs; the invariant is stated in SharedProto.tla and decided by SharedProtoTrace.tla",
+        "the reference of every state is the same program run alone on a PRIVATE compilation with the same value of the global c13_which (0/1), so a shared prototype that is modified by one state shows in another state's trace",
         "payload admissibility is judged on the value itself (function, userdata, thread, table with metatable), not on values nested inside plain tables",
         "corpus programs whose trace diverges from LuaSem even when run alone are C01's business and are excluded here (counted as excluded_c01_divergent)"])
     return rc
